@@ -21,13 +21,13 @@ type cfgLimit struct {
 }
 
 type cfgQueue struct {
-	Path    string
-	Conf    *configs.QueueConfig
-	Max     res.R
-	Guar    res.R
-	Users   map[string]cfgLimit
-	Groups  map[string]cfgLimit
-	Leaf    bool
+	Path   string
+	Conf   *configs.QueueConfig
+	Max    res.R
+	Guar   res.R
+	Users  map[string]cfgLimit
+	Groups map[string]cfgLimit
+	Leaf   bool
 }
 
 // parseCfgRes interprets the quantities the generator writes (plain integers, "m" suffix for vcore).
@@ -370,7 +370,6 @@ func (e *Engine) checkC16Step(st *Step) {
 		}
 	}
 }
-
 
 func anyPositive(r res.R) bool {
 	for _, v := range r {
